@@ -518,6 +518,9 @@ impl<'a> Sim<'a> {
         }
         let h = self.handle_of(bt);
         let pre = self.snapshot(bt);
+        // C07: a copy of the exchange as it is before the tick (the exchange types are Clone and the
+        // field is public); it is ticked by the harness on the row of date k for comparison
+        let twin = if self.ctx.wants("C07") { self.srv.as_ref().unwrap().with_state(|s| s.backtests.get(&bt).map(|b| b.exchange.clone())) } else { None };
         let r = self.srv.as_ref().unwrap().tick(bt);
         let Some(pre) = pre else {
             ev!(self.ctx, "tick bt={bt} -> {:?}", r.as_ref().map(|_| ()).map_err(|e| e.status));
@@ -550,6 +553,10 @@ impl<'a> Sim<'a> {
                 let di = date_index(k_before, n);
                 let quotes = row_for(ds, di);
                 let within = k_before < n;
+                // C01's clause about the submission clock is stated for clients that stop ticking once
+                // has_next is false: it applies to every tick such a client performs, i.e. while the
+                // server itself has reported has_next = true (for a correct clock the same as k < N)
+                let client_still_ticking = self.bts[h].last_has_next;
                 if !within {
                     self.ctx.bump("f3_tick_past_end");
                 }
@@ -562,6 +569,27 @@ impl<'a> Sim<'a> {
                 if pre.buffer.iter().any(|_| true) && k_before + 1 >= n {
                     self.ctx.bump("probe_submission_on_last_date");
                 }
+                if let (Some(mut twin), true) = (twin, within) {
+                    let (t, a) = twin.tick(&quotes);
+                    let same = if self.path == Path::Json {
+                        t.len() == resp.executed_trades.len()
+                            && a.len() == resp.inserted_orders.len()
+                            && t.iter().zip(resp.executed_trades.iter()).all(|(x, y)| x.symbol == y.symbol && x.date == y.date && x.typ == y.typ)
+                    } else {
+                        t.iter().map(fmt_trade).collect::<Vec<_>>() == resp.executed_trades.iter().map(fmt_trade).collect::<Vec<_>>()
+                            && a.iter().map(fmt_order).collect::<Vec<_>>() == resp.inserted_orders.iter().map(fmt_order).collect::<Vec<_>>()
+                    };
+                    rule!(
+                        self.ctx, "C07", "tick-matches-date-k", "tick", same,
+                        "tick #{} of backtest {bt} did not do what the exchange does on the quotes of date {} (index {di}): server fills [{}] admitted {}, exchange on that row fills [{}] admitted {}",
+                        k_before + 1, ds.dates[di],
+                        resp.executed_trades.iter().map(fmt_trade).collect::<Vec<_>>().join(", "), resp.inserted_orders.len(),
+                        t.iter().map(fmt_trade).collect::<Vec<_>>().join(", "), a.len()
+                    );
+                    if !t.is_empty() {
+                        self.ctx.bump("probe_c07_twin_ticks_with_fills");
+                    }
+                }
                 self.trackers[h].on_tick(
                     &mut self.ctx,
                     &pre,
@@ -570,7 +598,7 @@ impl<'a> Sim<'a> {
                     &resp.inserted_orders,
                     &post,
                     Some(ds.dates[di]),
-                    within,
+                    client_still_ticking,
                 );
                 self.bts[h].k = k_before + 1;
                 self.bts[h].last_has_next = resp.has_next;
